@@ -123,6 +123,12 @@ def main():
         agree.append((ragged, "inferred", "ragged-string-literal", "fn main()\n{\n\tvar g = [%s];\n}\n" % strs))
         agree.append((ragged, "[%d][%d]char8" % (len(inner), inner[0]), "ragged-string-literal-annotated",
                       "fn main()\n{\n\tvar g: [%d][%d]char8 = [%s];\n}\n" % (len(inner), inner[0], strs)))
+    # the documented coercions (array to view, address of an array to slice pointer) keep the element type
+    for t1 in PRIMS:
+        for t2 in PRIMS:
+            v = "\tvar a: [2]%s = [%s, %s];\n" % (t1, lit(t1), lit(t1))
+            agree.append((t1, t2, "array-for-view-parameter", "fn callee(p: []%s)\n{\n}\nfn main()\n{\n%s\tcallee(a);\n}\n" % (t2, v)))
+            agree.append((t1, t2, "array-address-for-slice-pointer", "fn callee(p: &[]%s)\n{\n}\nfn main()\n{\n%s\tcallee(&a);\n}\n" % (t2, v)))
     gh = run_harness(["alpha\tcheck\tm.pn\t" + esc(src) for _, _, _, src in agree])
     agree_bad = []
     for (t1, t2, pos, src), ha in zip(agree, gh):
